@@ -256,7 +256,7 @@ S3 = {
         note=("Trusted: Lean kernel + propext/Classical.choice/Quot.sound; the extractors (strict: anything outside the recognised shapes is a broken tie); numpy fancy-index semantics; Python's datetime for the harness' own calendar and `timetuple().tm_yday` as the proleptic Gregorian day of year. "
               "The loop bodies read only the inputs (modelled as compute-writes-then-apply). Finite output of the real debiasers is an oracle clause (scipy fits are outside the model).")),
     "C08": dict(text=TIER_A + "the running-window loops of RunningWindowDebiaser / DeltaChange / ISIMIP (Gen/Loops). The oracle also perturbs unevenly across years on 5-10-year series with trends / level shifts and compares every year's step on the target day."),
-    "C09": dict(text=" Session 3: the positive-ratio guard of the multiplicatively detrended QuantileMapping was sufficient, not necessary - qm_*_mono_signed prove monotonicity for every delta != 0 (the code divides and multiplies by the same signed delta). The oracle also covers values exactly on thresholds, signed data and dated series in every storage order."),
+    "C09": dict(note=("Guards stated as hypotheses: pairwise-distinct step-4 draws for the whole-window theorem, tie-free statements only (np.argsort is not stable). KNOWN FINDINGS printed as KNOWN-FINDING and exercised on every run: F16 (censored-gamma QM re-draws distinct sub-threshold values independently) and F22 (ISIMIP step 6 with the documented non-default option event_likelihood_adjustment=True is not rank preserving - Props.C09.step6_ela_can_reorder proves by witness that the guard eventLikelihoodAdjustment = false of step6_mono is necessary; control run with the option off preserves order). Precipitation-model transcriptions are tied by structural probes and C17's tier A."), text=" Session 3: the positive-ratio guard of the multiplicatively detrended QuantileMapping was sufficient, not necessary - qm_*_mono_signed prove monotonicity for every delta != 0 (the code divides and multiplies by the same signed delta). The oracle also covers values exactly on thresholds, signed data and dated series in every storage order."),
     "C10": dict(text=TIER_A + "ISIMIP steps 1-8 per-element logic (Gen/IsimipSteps: transfer trend in all four branches with ordered mask assignments, step 3 / 7, step 4 randomisation, bound masks with Python slice semantics, steps 1 / 8 scaling by the annual cycle), SDM relative (sdm_relative_denote, unconditional) and the CDFt SSR steps (Gen/DebWin). The oracle also judges every cell of the public grid entry point apply (serial / parallel / failsafe / layouts / encodings / construction paths)."),
     "C11": dict(text=" Session 3: scale_proportional (each rescaled count is a nearest integer of its proportional share - excludes 'lower keeps its count, upper gets the rest'); stated_clauses_do_not_pin_formula (a second four-branch formula satisfies all three stated clauses: a change of the formula that keeps them is reported without failing input by design). The oracle computes the windows itself, covers twin calendars, asymmetric over-claims and calls without time information on the documented inferred calendar."),
     "C12": dict(
@@ -283,6 +283,14 @@ S3 = {
         note=("np.corrcoef / sqrt stay extern parameters (exact covariances from the driver); the two utils helpers (_unpack_df_of_numpy_arrays, list-of-two unpacking) are tied by normalised text; only overall/global "
               "metrics in this model (time-scoped ones are C19). The conditional exceedance is pinned on the percent scale the code returns.")),
 }
+CAP = " Capstone (DESIGN §4.22): the property is also stated on the COMPOSITION of the regenerated pieces (regenerated loop spec applied to the regenerated per-window program; regenApplyLocation_<Deb> proved equal to the model) for all eight debiasers."
+for _pid in ("C01", "C02", "C03", "C04", "C06", "C07", "C08", "C09", "C10"):
+    S3.setdefault(_pid, {}).setdefault("text", "")
+    S3[_pid]["text"] += CAP
+S3["C14"]["text"] += TIER_A + "the dispatch of CDFt / QuantileDeltaMapping.apply_on_window (Gen/WinDispatch): ValueError exactly when the lengths of time_cm_future and cm_future differ (value_error_iff), inference when it is None, the year loop."
+S3["C06"]["text"] += " ISIMIP step 2 imputation is regenerated too (Gen/IsimipStep2, denote = step2Impute: the function the F21 witness is stated on)."
+S3["C19"]["text"] += " Part 2: clusters (labels 1..max only; the pre-F8 term refuted), spatial extent, quantile by locality, the annual loop nest (GenMetrics2)."
+S3["C20"]["text"] += " Part 2 (Gen/EvaluateGrid2): a row is dropped iff some location is +-inf, never on NaN, and the dropped frame is a sublist in order; yearly exceedances on a grid (one row per distinct year); RmseSpec denotation."
 for _pid, _d in S3.items():
     CHECKS[_pid]["text"] += _d.get("text", "")
     if "note" in _d:
